@@ -33,4 +33,8 @@ def run(check):
     from ..rules_derived import rule_no_memoisation
     check.run_rule('C18.R5', lambda c: rule_no_memoisation(c, 'C18.R5', ('_signatures', '_autoforwards', '_specifiers', '_util', 'modifiers', 'specifiers', 'wrappers'),
                    'what a retrieval or an operation returns then depends on the calls made before it, and every caller shares one mutable result'))
+    # "binding the same method repeatedly or on different instances and owners ... each bound to the right instance": the forger /
+    # wrapper descriptors rebuild themselves around safe_get(self.__wrapped__, instance, owner) (shared with C13.R2)
+    from ..rules_wrappers import rule_descriptor_rebinding
+    check.run_rule('C18.R6', lambda c: rule_descriptor_rebinding(c, 'C18.R6'))
     check.run_rule('C18.R1b', lambda c: rule_recursion_guard_emptied(c, 'C18.R1'))
